@@ -405,6 +405,14 @@ def rule_tpl_lint(ctx):
                 if not ok:
                     ok = _covered_by_outer_attrs(ctx, t, ts)
                 if not ok:
+                    # the attributes and the impl assembled programmatically: `let mut out = quote!{#[allow(..)]};
+                    # out.extend(quote!{impl ..})`
+                    htxt = T.ir_text(hdr).replace(" ", "")
+                    for b in T.built_templates(t.fn):
+                        for bh, bb, battrs in impl_headers(b):
+                            if T.ir_text(bh).replace(" ", "") == htxt and attr_allows(battrs, "deprecated"):
+                                ok = True
+                if not ok:
                     ctx.report(
                         f"{t.key()}:no-allow-deprecated",
                         f"{rel}:{t.line}",
